@@ -1,5 +1,5 @@
 (* C04 -- Decision graph: every generated path executes, exactly, to its target. *)
-From Fences Require Import GraphSpec GraphLinks GraphExec GraphAnalysis GraphTheorems GraphCheck GraphRun.
+From Fences Require Import GraphSpec GraphLinks GraphExec GraphAnalysis GraphTheorems GraphCheck GraphRun GraphTerm GraphWalk.
 
 (* every entry of generate_paths(): its path runs from the root, is consumed exactly (empty rest),
    and the run applies the leaf reported as target.  Holds for both code variants (partial
@@ -59,6 +59,27 @@ Proof.
   split; [apply wfb_wf; vm_compute; reflexivity|]. split; vm_compute; reflexivity.
 Qed.
 Print Assumptions C04_no_error_refuted_pinned.
+
+(* ... and holds for the repaired code: on every well-formed graph in which every decision has a completion
+   made of valid leaves (or which has no cycle), generate_paths ends without error for every sufficiently
+   large recursion budget, and every entry executes from the root, exactly, through its target *)
+Theorem C04_no_error : forall V g root lr0 lv0,
+  wf g root -> ((forall n, is_dec g n = true -> VC g n) \/ acyclic g) ->
+  fix_af V = true -> (fix_reset V = true \/ (blank g lr0 /\ blank g lv0)) ->
+  exists F a es, forall fuel, F <= fuel ->
+    generate_paths V fuel g root lr0 lv0 = Ok (a, (es, Ok tt)) /\
+    forall e, In e es -> exists tr, Run g root (epath e) tr [] /\ In (etarget e) tr.
+Proof.
+  intros V g root lr0 lv0 W HP FA HB.
+  assert (T : exists F a es, forall fuel, F <= fuel -> generate_paths V fuel g root lr0 lv0 = Ok (a, (es, Ok tt))).
+  { destruct HP as [HP|HP]; [apply generate_paths_terminates|apply generate_paths_terminates_acyclic]; auto. }
+  destruct T as (F & a & es & HT). exists F, a, es. intros fuel Lf. split; [auto|].
+  intros e He.
+  assert (HB' : fix_reset V = true \/ forall s i, s < length g -> lv0 s i = None) by (destruct HB as [HB|[_ HB]]; auto).
+  destruct (paths_exact V g root W fuel lr0 lv0 a es (Ok tt) HB' (HT fuel Lf) e He) as (tr & X & I & _).
+  exists tr. split; auto. exact (exec_Run g fuel root (epath e) tr [] X).
+Qed.
+Print Assumptions C04_no_error.
 
 Example C04_nonvacuous :
   exists es, gp_entries V_fixed 50 (build c04_witness) 0 = Some (es, Ok tt) /\ es <> [].
